@@ -201,6 +201,19 @@ def replay_and_validate(f, hists, keep_dir=None, inp=None):
                                         "goroutines": dump[:3000],
                                         "replay_input": {"family": f["name"], "config": inp["config"], "behaviours": [beh]}})
                 break
+        # end-of-behaviour audit: what a lookup returns for each key is the whole body of the version its metadata names
+        # (StoredComplete / ReadsUnmixed on the real state; independent of where the run first left the specification)
+        for idx, ln in enumerate(lines):
+            # (also: the handle a successful store returns must read back exactly the body that was stored)
+            if (ln.get("probe") and ln.get("pbody") is False) or (ln.get("res") == "ok" and ln.get("rb") is False):
+                b = ln.get("b")
+                beh = inp["behaviours"][b - 1] if b and b - 1 < len(inp["behaviours"]) else []
+                res["problems"].append({"props": ["C01"], "cats": ["probe_body" if ln.get("probe") else "stored_body"], "line": idx + 1, "behaviour": b, "model": None,
+                                        "event": dict((k, v) for k, v in ln.items() if k not in ("dump", "snap")),
+                                        "context": [dict((k, v) for k, v in x.items() if k not in ("snap", "dump"))
+                                                    for x in lines[max(0, idx - 8):idx] if x.get("b") == b],
+                                        "replay_input": {"family": f["name"], "config": inp["config"], "behaviours": [beh]}})
+                break
         first = None
         if r["bad"]:
             first = ("soft", r["bad"]["line"], r["bad"]["cats"])
